@@ -85,6 +85,11 @@ pub fn enabled_ops(s: &Spec, with_recycle: bool) -> Vec<Op> {
             for (k, r, bb) in [(2usize, 1usize, 64usize), (2, 3, 64)] {
                 v.push(Op::Recycle(kind, k, r, bb));
             }
+            // hand the working space to a codec of another kind with the *current* configuration
+            let same = Op::Recycle(kind, s.k, s.r, s.b);
+            if kind != s.kind && !v.contains(&same) {
+                v.push(same);
+            }
         }
     }
     v
@@ -111,6 +116,18 @@ impl Start {
             .with("seed", seed)
             .with("ops", dump_ops(ops))
     }
+}
+
+/// starts of C06 only: additionally a configuration whose high-rate and low-rate layouts need
+/// different amounts of working space ((3,1): 3 vs 4 positions encoding, 4 vs 8 decoding)
+pub fn starts_c06(thorough: bool, soil: u64) -> Vec<Start> {
+    let mut v = starts(thorough, soil);
+    for decoder in [false, true] {
+        for kind in [Kind::High, Kind::Low] {
+            v.push(Start { eng: "nosimd", decoder, kind, cfg: (3, 1, 64), soil });
+        }
+    }
+    v
 }
 
 pub fn starts(thorough: bool, soil: u64) -> Vec<Start> {
@@ -173,7 +190,7 @@ pub fn run(ctx: &Ctx, rep: &mut Report) {
     rep.assume("shard sizes whose working space cannot be allocated are not exercised (outside the property)");
     rep.assume("state merging: two histories are merged only if model state and verif_digest (configuration, counters, bitmap, every byte of working memory) coincide");
     rep.bound("depth", J::i(depth));
-    let sts = starts(ctx.thorough(), ctx.seed | 1);
+    let sts = starts_c06(ctx.thorough(), ctx.seed | 1);
     rep.bound("starts", J::s(format!("{} = {{enc,dec}} x {{rs,def,high,low}} x cfgs {:?}{}", sts.len(), VALID_CFGS, if ctx.thorough() { " x {soiled, fresh}" } else { " (soiled; (1,1,2) thorough only)" })));
 
     let mut obs_kinds: BTreeMap<String, u64> = BTreeMap::new();
